@@ -13,10 +13,10 @@ package chk
 
 import (
 	"fmt"
-	"os"
 	"go/ast"
 	"go/token"
 	"go/types"
+	"os"
 	"sort"
 	"strings"
 
@@ -74,6 +74,9 @@ func planRangeFunc(p *Prog) roundPlan {
 		}
 	}
 	planDeferResult(p, in, &plan)
+	planSelectDistribute(p, in, &plan)
+	planDeferExplicit(p, in, &plan)
+	planSortInterface(p, in, &plan)
 	return plan
 }
 
